@@ -37,6 +37,10 @@ package rhp
 //@   assigns nothing
 //@ iface ContractSigner.SignHash
 //@   assigns nothing
+//@ iface TransportClient.PeerKey
+//@   assigns nothing
+//@ iface TransportClient.FrameSize
+//@   assigns nothing
 //@ func openStream
 //@   assigns nothing
 //@   ensures result1 == nil ==> result0 != nil
@@ -117,6 +121,31 @@ package rhp
 //@        && callarg("ReviseForSectorRoots", 0) == contract.Revision && callarg("ReviseForSectorRoots", 1) == prices && callarg("ReviseForSectorRoots", 2) == length
 //@        && result0.Usage == callres("ReviseForSectorRoots", 1)
 //@   ensures [hostsig] result1 == nil ==> hostSigned(contract.Revision.HostPublicKey, callres("ReviseForSectorRoots", 0), result0.Revision)
+//
+// Read: success means that exactly the announced number of bytes went through the range-proof
+// verifier built for the requested leaf range while being copied to the caller's writer, and that
+// the verifier accepted the host's proof against the requested root; the usage is the priced cost
+// of the requested length.
+//@ extern io.LimitReader
+//@   assigns nothing
+//@ extern io.TeeReader
+//@   assigns nothing
+//@ extern rhp4.NewRangeProofVerifier
+//@   assigns nothing
+//@   ensures result != nil
+//@ extern (*go.sia.tech/core/rhp/v2.RangeProofVerifier).ReadFrom
+//@   assigns nothing
+//@ extern (*go.sia.tech/core/rhp/v2.RangeProofVerifier).Verify
+//@   assigns nothing
+//@ func RPCReadSector props C10
+//@   nopanic
+//@   requires t != nil
+//@   ensures [range] result1 == nil ==> called("NewRangeProofVerifier") && callarg("NewRangeProofVerifier", 0) == offset / 64 && callarg("NewRangeProofVerifier", 1) == (offset + length + 63) / 64
+//@   ensures [streamed] result1 == nil ==> called("ReadFrom") && callarg("ReadFrom", 0) == callres("NewRangeProofVerifier") && callres("ReadFrom", 1) == nil
+//@        && same(callarg("ReadFrom", 1), callres("TeeReader")) && same(callarg("TeeReader", 1), w) && same(callarg("TeeReader", 0), callres("LimitReader"))
+//@   ensures [proof] result1 == nil ==> called("Verify") && callres("Verify") && callarg("Verify", 0) == callres("NewRangeProofVerifier") && callarg("Verify", 2) == root
+//@   ensures [order] result1 == nil ==> calledBefore("ReadFrom", "Verify")
+//@   ensures [usage] result1 == nil ==> result0.Usage == prices.RPCReadSectorCost(length)
 //
 //@ func RPCVerifySector props C10
 //@   nopanic
